@@ -45,7 +45,12 @@ Operands ==
     Op("e.v_enum", "TV", "enum"), Op("e.v_double", "TV", "float"), Op("e.v_ptr", "TV", "ptr"), Op("e.v_fn", "TV", "fnptr"),
     Op("e.v_arr", "TV", "arr"), Op("e.v_ps", "TV", "struct"),
     Op("e.o_int", "O", "int"), Op("e.o_ptr", "O", "ptr"), Op("e.cb", "CB", "fnptr"), Op("e.ap", "AP", "ptr"),
-    Op("e.bh", "BH", "bool"), Op("e.ih", "IH", "int") }
+    Op("e.bh", "BH", "bool"), Op("e.ih", "IH", "int"),
+    \* results of another operation: what indexing or dereferencing a tainted POINTER yields lives in
+    \* sandbox memory (tainted_volatile), whatever the pointee is; an element of a tainted array in
+    \* application memory is tainted
+    Op("e.t_pp[1]", "TV", "ptr"), Op("(*e.t_pp)", "TV", "ptr"), Op("e.t_ptr[1]", "TV", "int"), Op("(*e.t_ptr)", "TV", "int"),
+    Op("e.t_arr[1]", "T", "int"), Op("e.v_arr[1]", "TV", "int") }
 
 \* right operands of binary forms
 Rhs ==
